@@ -47,7 +47,7 @@ MachineStep(e) ==
       [] e.op = "sum" -> Sum(e.d, e.ss)
       [] e.op = "mul" -> Mul(e.d, e.k, e.alg)
       [] e.op \in {"eq", "is_zero", "on_curve", "in_subgroup"} -> Query(e.op, e.d, e.s)
-      [] e.op = "clear_cofactor" -> ClearCofactor(e.d, HEFF)
+      [] e.op = "clear_cofactor" -> IF "heff_rel" \in DOMAIN Hdr THEN ClearCofactorRel(e.d, Abs(e.w[1][2])) ELSE ClearCofactor(e.d, HEFF)
       [] e.op = "mul_by_cofactor" -> MulByCofactor(e.d)
       [] e.op = "mul_by_cofactor_inv" -> MulByCofactorInv(e.d)
       [] e.op \in {"affine_roundtrip", "normalize_batch"} -> Repr(e.op, e.ds)
@@ -56,7 +56,7 @@ Act == /\ phase = "act" /\ l <= Len(Rec)
        /\ LET e == Rec[l] IN
             \/ ~Has(e, "panic") /\ MachineStep(e)
             \/ /\ \/ Has(e, "panic")
-                  \/ e.op \in {"load", "add", "sub", "dbl", "mul_by_cofactor_inv"} /\ ~ENABLED MachineStep(e)
+                  \/ e.op \in {"load", "add", "sub", "dbl", "mul_by_cofactor_inv", "clear_cofactor"} /\ ~ENABLED MachineStep(e)
                /\ UNCHANGED regs
                /\ ev' = [op |-> "REJECTED"]
        /\ phase' = "cmp" /\ UNCHANGED <<l, nbad>>
